@@ -41,6 +41,8 @@ func runC02(c *core.Ctx) {
 	checkLookupJoin(c, ids)
 	checkOuterFlags(c)
 	checkOuterJoinKeys(c)
+	c.Rule("OPT1", "equalities pushed into a stream join become key pairs at corresponding positions")
+	checkStreamJoinKeyPushdown(c)
 	c.Rule("CTOR", "join constructors store inputs and key expressions in the field of the same side")
 	checkConstructors(c, "CTOR", "execution/nodes")
 	checkCompareValueSlices(c)
